@@ -158,7 +158,7 @@ Proof.
   intros Hwf. unfold compute_attrs.
   destruct (loop_total text (new_cursor text) 0 [] ltac:(lia) (wne_ok_new text)) as (attrs & E & L).
   rewrite E. cbn [bind]. eexists; split; [reflexivity|].
-  pose proof (loop_trace gproj gstep a_grapheme (fun a => eq_refl) step_gproj text (new_cursor text) 0 [] attrs E) as Ht.
+  pose proof (loop_trace gproj gstep a_grapheme (fun _ _ => True) (fun a => eq_refl) (fun _ _ _ _ _ _ => I) (fun cr i r next _ _ => step_gproj cr i r next) text (new_cursor text) 0 [] attrs ltac:(lia) I E) as Ht.
   cbn [map app] in Ht.
   unfold gb_spec.
   destruct text as [|r0 rest].
